@@ -56,7 +56,9 @@ pub fn check_c09(tier: Tier) -> i32 {
     let judge = |c: &Clause, _h: &[Op]| matches!(c.kind, ClauseKind::Dangling | ClauseKind::DupId) || c.sig.starts_with("entities ") || c.sig.starts_with("panic-encode") || c.sig.starts_with("panic-op Delete") || c.sig.starts_with("site export") && c.sig.contains(" extra")
         // after a deletion no surviving reference may designate another entity (for instance the later
         // items of an element segment from which a deleted function was silently dropped)
-        || c.sig.contains(" wrong-entity");
+        || c.sig.contains(" wrong-entity")
+        // ... nor may an element segment silently lose an item (every later table slot would shift)
+        || c.sig.contains(" item-count");
     let relevant = |h: &[Op]| h.iter().any(is_delete);
     let fa = fn_alphabet(false);
     let ga = global_alphabet();
@@ -280,7 +282,7 @@ pub fn replay(id: &str, case: &serde_json::Value) -> Vec<Mismatch> {
     bases.extend(c29_bases());
     match id {
         "C05" => replay_history(&bases, case, CFG3, &|c, _| c.kind == ClauseKind::Reencode),
-        "C09" => replay_history(&bases, case, CFG1, &|c, _| matches!(c.kind, ClauseKind::Dangling | ClauseKind::DupId) || c.sig.starts_with("entities ") || c.sig.starts_with("panic-") || c.sig.contains(" wrong-entity") || c.sig.starts_with("site export") && c.sig.contains(" extra")),
+        "C09" => replay_history(&bases, case, CFG1, &|c, _| matches!(c.kind, ClauseKind::Dangling | ClauseKind::DupId) || c.sig.starts_with("entities ") || c.sig.starts_with("panic-") || c.sig.contains(" wrong-entity") || c.sig.contains(" item-count") || c.sig.starts_with("site export") && c.sig.contains(" extra")),
         "C29" => replay_history(&bases, case, CFGN, &|c, _| c.kind == ClauseKind::Names),
         _ => replay_history(&bases, case, CFG1, &|c, _| matches!(c.kind, ClauseKind::Func | ClauseKind::Generic | ClauseKind::DupId)),
     }
